@@ -50,32 +50,28 @@ Section EdEq.
   Lemma pm_correct e P : valid P -> valid (pm_mul PM e P) /\ aff (pm_mul PM e P) = nmul (Z.to_nat e) (aff P).
   Proof. intro V. rewrite pm_ok, <- (pt_mul_K K). now apply pt_mul_correct. Qed.
 
-  Theorem ed_equation_complete a r k : 0 <= a -> 0 <= r -> 0 <= k ->
-    let B := pt_base K in
-    let A := pm_mul PM a B in
-    let R := pm_mul PM r B in
+  (* general form: A and R are ANY valid points whose affine images are [a]G and [r]G (e.g. decoded from bytes) *)
+  Theorem ed_equation_complete_gen (A R : point) a r k : 0 <= a -> 0 <= r -> 0 <= k ->
+    valid A -> valid R -> aff A = nmul (Z.to_nat a) G -> aff R = nmul (Z.to_nat r) G ->
     let s := sc_add K r (sc_mul K k a) in
     ed_is_identity (ed_mul8 K (pt_add K R (pt_neg K (ed_rprime K PM A k s)))) = true.
   Proof.
-    intros Ha Hr Hk. cbv zeta.
-    set (B := pt_base K). set (A := pm_mul PM a B). set (R := pm_mul PM r B). set (s := sc_add K r (sc_mul K k a)).
+    intros Ha Hr Hk VA VR AA AR. cbv zeta.
+    set (B := pt_base K). set (s := sc_add K r (sc_mul K k a)).
     assert (EG : aff B = G) by reflexivity.
-    destruct (pm_correct a B (valid_base K)) as [VA AA]. fold A in VA, AA.
-    destruct (pm_correct r B (valid_base K)) as [VR AR]. fold R in VR, AR.
     destruct (pt_neg_correct K A VA) as [VnA AnA].
     destruct (pm_correct k _ VnA) as [VkA AkA].
     destruct (pm_correct s B (valid_base K)) as [VsB AsB].
     unfold ed_rprime. destruct (pt_add_correct K _ _ VkA VsB) as [Vrp Arp].
     destruct (pt_neg_correct K _ Vrp) as [Vn An].
     destruct (pt_add_correct K _ _ VR Vn) as [Vd Ad].
-    (* the affine image of R' is [r]G *)
     assert (Es : nmul (Z.to_nat s) G = eadd (nmul (Z.to_nat r) G) (nmul (Z.to_nat k) (nmul (Z.to_nat a) G))).
     { unfold s, sc_add, sc_mul, smod. rewrite !k_mod_ok, k_mul_ok.
       rewrite <- (E_nmul_mul _ _ _ CG), <- (E_nmul_add _ _ _ CG).
       rewrite <- Z2Nat.inj_mul, <- Z2Nat.inj_add by nia.
       apply nmul_congr; try exact CG; [exact (base_order K) | apply Z.mod_pos_bound; reflexivity | nia |].
       rewrite Z.mod_mod by discriminate. rewrite Zplus_mod_idemp_r. reflexivity. }
-    rewrite EG in AA, AR, AsB.
+    rewrite EG in AsB.
     assert (Erp : aff (pt_add K (pm_mul PM k (pt_neg K A)) (pm_mul PM s B)) = nmul (Z.to_nat r) G).
     { rewrite Arp, AkA, AnA, AA, AsB, Es.
       set (X := nmul (Z.to_nat a) G). assert (CX : onc X) by (apply E_nmul_onc; exact CG).
@@ -85,12 +81,52 @@ Section EdEq.
       rewrite (E_comm (eneg Y) (eadd Rr Y)). apply E_cancel_r; assumption. }
     assert (Ed0 : aff (pt_add K R (pt_neg K (pt_add K (pm_mul PM k (pt_neg K A)) (pm_mul PM s B)))) = eid).
     { rewrite Ad, An, Erp, AR. apply E_neg_r. apply E_nmul_onc. exact CG. }
-    (* multiplication by 8 keeps the neutral element *)
     set (d := pt_add K R (pt_neg K (pt_add K (pm_mul PM k (pt_neg K A)) (pm_mul PM s B)))) in *.
     unfold ed_mul8.
     destruct (pt_add_correct K _ _ Vd Vd) as [V2 A2]. rewrite Ed0, E_id_l in A2.
     destruct (pt_add_correct K _ _ V2 V2) as [V4 A4]. rewrite A2, E_id_l in A4.
     destruct (pt_add_correct K _ _ V4 V4) as [V8 A8]. rewrite A4, E_id_l in A8.
     apply is_identity_of_aff; assumption.
+  Qed.
+
+  (* the point R' = [k](-A) + [S]B that the dalek rule re-encodes is [r]G *)
+  Lemma ed_rprime_aff (A : point) a r k : 0 <= a -> 0 <= r -> 0 <= k ->
+    valid A -> aff A = nmul (Z.to_nat a) G ->
+    let s := sc_add K r (sc_mul K k a) in
+    valid (ed_rprime K PM A k s) /\ aff (ed_rprime K PM A k s) = nmul (Z.to_nat r) G.
+  Proof.
+    intros Ha Hr Hk VA AA. cbv zeta.
+    set (s := sc_add K r (sc_mul K k a)).
+    assert (EG : aff (pt_base K) = G) by reflexivity.
+    destruct (pt_neg_correct K A VA) as [VnA AnA].
+    destruct (pm_correct k _ VnA) as [VkA AkA].
+    destruct (pm_correct s (pt_base K) (valid_base K)) as [VsB AsB].
+    unfold ed_rprime. destruct (pt_add_correct K _ _ VkA VsB) as [Vrp Arp].
+    split; [exact Vrp|].
+    assert (Es : nmul (Z.to_nat s) G = eadd (nmul (Z.to_nat r) G) (nmul (Z.to_nat k) (nmul (Z.to_nat a) G))).
+    { unfold s, sc_add, sc_mul, smod. rewrite !k_mod_ok, k_mul_ok.
+      rewrite <- (E_nmul_mul _ _ _ CG), <- (E_nmul_add _ _ _ CG).
+      rewrite <- Z2Nat.inj_mul, <- Z2Nat.inj_add by nia.
+      apply nmul_congr; try exact CG; [exact (base_order K) | apply Z.mod_pos_bound; reflexivity | nia |].
+      rewrite Z.mod_mod by discriminate. rewrite Zplus_mod_idemp_r. reflexivity. }
+    rewrite EG in AsB. rewrite Arp, AkA, AnA, AA, AsB, Es.
+    set (X := nmul (Z.to_nat a) G). assert (CX : onc X) by (apply E_nmul_onc; exact CG).
+    rewrite (E_nmul_eneg _ _ CX).
+    set (Y := nmul (Z.to_nat k) X). assert (CY : onc Y) by (apply E_nmul_onc; exact CX).
+    set (Rr := nmul (Z.to_nat r) G). assert (CR : onc Rr) by (apply E_nmul_onc; exact CG).
+    rewrite (E_comm (eneg Y) (eadd Rr Y)). apply E_cancel_r; assumption.
+  Qed.
+
+  Theorem ed_equation_complete a r k : 0 <= a -> 0 <= r -> 0 <= k ->
+    let B := pt_base K in
+    let A := pm_mul PM a B in
+    let R := pm_mul PM r B in
+    let s := sc_add K r (sc_mul K k a) in
+    ed_is_identity (ed_mul8 K (pt_add K R (pt_neg K (ed_rprime K PM A k s)))) = true.
+  Proof.
+    intros Ha Hr Hk. cbv zeta.
+    destruct (pm_correct a (pt_base K) (valid_base K)) as [VA AA].
+    destruct (pm_correct r (pt_base K) (valid_base K)) as [VR AR].
+    exact (ed_equation_complete_gen _ _ a r k Ha Hr Hk VA VR AA AR).
   Qed.
 End EdEq.
